@@ -54,9 +54,23 @@ def apply_disabled(S, spec, clear=True):
     #  put exactly those flags back)
 
 
-def check_solve(spec, counters, violations, fault_at=None, persistent=False, tighten=False, clear=True, second=None):
+def check_solve(spec, counters, violations, fault_at=None, persistent=False, tighten=False, clear=True, second=None,
+                presteps=None):
     """Run one solve; returns number of action calls of the run."""
     S = optmon.Setup(spec, fault_at=None)
+    if presteps is not None:
+        # knobs are MOVED by manual steps first and only then disabled (no clear_log): iteration 0 still
+        # records the original point with every knob active, and that is what a failing solve must restore
+        nsteps, extra = presteps
+        try:
+            S.opt.step(nsteps)
+        except Exception:
+            # a manual step may legitimately fail (e.g. a singular problem): step() is C10's business
+            counters["presteps_raised"] = counters.get("presteps_raised", 0) + 1
+            return 0
+        clear = False
+        if extra is not None and spec["n"] >= 2:
+            S.opt.disable(vary_name=["k%d" % (extra % spec["n"])])
     apply_disabled(S, spec, clear)
     if second is not None:
         # a second solve after an earlier one (stale 'found a point' state must not leak): make the goal
@@ -78,14 +92,15 @@ def check_solve(spec, counters, violations, fault_at=None, persistent=False, tig
     k0, va0, ta0 = row0(S.opt)
     # iteration 0 was logged at construction (or at the last clear_log) and no knob moved since: it must hold the
     # knob values found in the container now (independent reading of "where the solve starts")
-    if second is None and [float(v) for v in S.knobs()] != k0 and not tighten:
+    if second is None and presteps is None and [float(v) for v in S.knobs()] != k0 and not tighten:
         violations.append({"what": "C09 iteration 0 of the log records knobs %s but the container held %s when it was logged" % (k0, S.knobs()),
                            "spec": spec})
         return 0
     calls0 = S.calls
     S.fault_at = None if fault_at is None else calls0 + fault_at
     S.persistent = persistent
-    wit = {"spec": spec_json(spec), "fault_at": fault_at, "persistent": persistent, "tighten": tighten, "clear": clear, "second": second}
+    wit = {"spec": spec_json(spec), "fault_at": fault_at, "persistent": persistent, "tighten": tighten, "clear": clear, "second": second,
+           "presteps": presteps}
     try:
         S.opt.solve(broyden=spec["broyden"])
         raised = None
@@ -148,7 +163,7 @@ def run_shard(spec_):
     if spec_.get("replay"):
         w = spec_["replay"]
         check_solve(w["spec"], counters, violations, w.get("fault_at"), w.get("persistent", False), w.get("tighten", False),
-                    w.get("clear", True), w.get("second"))
+                    w.get("clear", True), w.get("second"), w.get("presteps"))
         return {"evaluations": 1, "digests": [], "samples": [], "counters": counters, "violations": violations, "known": []}
     for p in range(spec_["problems"]):
         spec = optmon.gen_problem(rng)
@@ -167,6 +182,10 @@ def run_shard(spec_):
         guarded(violations, spec, check_solve, spec, counters, violations, clear=False, fault_at=rng.choice([None, 1, 2, 3]))
         guarded(violations, spec, check_solve, spec, counters, violations, second=rng.choice(["zero-tol", "same"]))
         counters["second_solve_runs"] = counters.get("second_solve_runs", 0) + 1
+        for _ in range(2):
+            guarded(violations, spec, check_solve, spec, counters, violations, fault_at=rng.choice([1, 2, 3, 5]),
+                    persistent=rng.random() < 0.5, presteps=[rng.choice([1, 2]), rng.choice([None, 0, 1, 2, 3])])
+            counters["moved_then_disabled_runs"] = counters.get("moved_then_disabled_runs", 0) + 1
         if len(samples) < 2:
             samples.append({"spec": {k: spec[k] for k in ("kind", "n", "m", "x0", "tars", "limits", "n_steps_max", "broyden")},
                             "action_calls_in_fault_free_solve": n})
